@@ -679,6 +679,17 @@ func SyncPoint(p interface{}, name string) {
 	t.tick()
 }
 
+// Yield is a pure scheduling point without a memory event: a call out of the library into code the harness
+// supplies (a user callback that may take any amount of time), where another thread may run.
+func Yield(name string) {
+	r := active()
+	if r == nil || r.mapOnly {
+		return
+	}
+	r.point()
+	r.Events = append(r.Events, fmt.Sprintf("t%d Y %s", r.cur.id, name))
+}
+
 // GlobalNames lists the registered variables (for the evidence file).
 func GlobalNames() []string {
 	var out []string
